@@ -249,6 +249,32 @@ func (ps *protoSpec) specSign(eWant, priv *pt) {
 				}
 			}
 			ps.need("SIGN-REDRAW", ok, "a rejected candidate does not lead to a new full 32-byte draw")
+			// a candidate is rejected only for one of the standard's reasons: k outside [1, n-1], r = 0, r + k = n, s = 0
+			if kd := lastDraw(o); kd != nil && kd.k == 32 {
+				k := pVal(kd)
+				x1 := pOp("affx", pOp("base", k))
+				rPoly := polyOf(pAdd(pVal(eWant), x1))
+				rkPoly := polyOf(pAdd(pAdd(pVal(eWant), x1), k))
+				Rt := pOp("mod", pAdd(pVal(eWant), x1))
+				why := ps.prove(o, k, token.LEQ, pC(0)) || ps.prove(o, k, token.GEQ, pSym("N")) || ps.prove(o, pAdd(Rt, k), token.EQL, pSym("N"))
+				for _, f := range o.st.pfacts {
+					if why || f.a == nil {
+						break
+					}
+					for _, pr := range [][2]*pt{{f.a, f.b}, {f.b, f.a}} {
+						m, z := ps.d.normInt(o.st, pr[0]), pr[1]
+						isZero := z.op == "c" && z.n.Sign() == 0 && (f.op == token.EQL || (f.op == token.LEQ && pr[0] == f.a) || (f.op == token.GEQ && pr[0] == f.b))
+						if !isZero || m.op != "mod" {
+							continue
+						}
+						u := polyOf(m.args[0])
+						if len(u.add(rPoly, -1)) == 0 || len(u.add(rkPoly, -1)) == 0 || sCongruent(m.args[0], k, Rt, d) {
+							why = true
+						}
+					}
+				}
+				ps.need("SIGN-REDRAW-ONLY", why, "a candidate is rejected on a path that establishes none of k = 0, k >= n, r = 0, r + k = n, s = 0: a nonce the standard accepts is skipped")
+			}
 			continue
 		}
 		if len(o.vals) != 3 {
@@ -284,6 +310,22 @@ func (ps *protoSpec) specSign(eWant, priv *pt) {
 				}
 			}
 		}
+		if !okRK {
+			// (r + k) mod n != 0 on the path: r + k is not a multiple of n, in particular not n
+			want := polyOf(rk)
+			for _, f := range o.st.pfacts {
+				if f.a == nil {
+					continue
+				}
+				for _, pr := range [][2]*pt{{f.a, f.b}, {f.b, f.a}} {
+					m, z := pr[0], pr[1]
+					nonzero := (f.op == token.NEQ && z.op == "c" && z.n.Sign() == 0) || (f.op == token.GEQ && pr[0] == f.a && z.op == "c" && z.n.IsInt64() && z.n.Int64() == 1) || (f.op == token.GTR && pr[0] == f.a && z.op == "c" && z.n.Sign() == 0)
+					if nonzero && m.op == "mod" && len(polyOf(m.args[0]).add(want, -1)) == 0 {
+						okRK = true
+					}
+				}
+			}
+		}
 		ps.need("SIGN-RK", okRK, "r + k != n does not follow from the guards of a returning path")
 		// s = (1+d)^-1 (k - r d): with I = inv(1+d): s ≡ I*k - I*r*d ; E = poly(S) - target = A*I + B ; need A + B*(1+d) == 0
 		I := pOp("inv", pAdd(d, pC(1)))
@@ -295,39 +337,13 @@ func (ps *protoSpec) specSign(eWant, priv *pt) {
 		} else {
 			okS2 = ps.prove(o, Sn, token.GEQ, pC(0)) && ps.prove(o, Sn, token.LSS, pSym("N"))
 		}
-		target := pMul(I, pAdd(k, pNeg(pMul(R, d))))
-		E := polyOf(inner).add(polyOf(target), -1)
-		iAtom := strings.ReplaceAll(I.String(), "*", "x")
-		A, B := spoly{}, spoly{}
-		for m, c := range E {
-			parts := []string{}
-			if m != "" {
-				parts = strings.Split(m, "*")
-			}
-			cnt := 0
-			var rest []string
-			for _, a := range parts {
-				if a == iAtom {
-					cnt++
-				} else {
-					rest = append(rest, a)
-				}
-			}
-			switch cnt {
-			case 0:
-				B[strings.Join(rest, "*")] = c
-			case 1:
-				A[strings.Join(rest, "*")] = c
-			default:
-				okS2 = false
-			}
-		}
-		zero := A.add(B.mul(polyOf(pAdd(d, pC(1)))), 1)
-		ps.need("SIGN-S", okS2 && len(zero) == 0, "s = %s is not the canonical residue of (1+d)^-1 (k - r d) modulo n", S)
+		_ = I
+		ps.need("SIGN-S", okS2 && sCongruent(inner, k, R, d), "s = %s is not the canonical residue of (1+d)^-1 (k - r d) modulo n", S)
 		ps.need("SIGN-S-NONZERO", ps.prove(o, Sn, token.GEQ, pC(1)), "s != 0 does not follow from the guards of a returning path")
 	}
 	ps.flush(map[string]string{
 		"SIGN-REDRAW":        "every rejected candidate restarts the loop after a full 32-byte draw",
+		"SIGN-REDRAW-ONLY":   "a candidate is rejected only when k = 0, k >= n, r = 0, r + k = n or s = 0",
 		"SIGN-ERROR-RESULTS": "every error outcome returns nil for r and s",
 		"SIGN-KEY-RANGE":     "a signature is returned only for 1 <= d <= n-2",
 		"SIGN-NONCE":         "k is the last 32-byte draw and 1 <= k <= n-1",
@@ -418,6 +434,10 @@ func (ps *protoSpec) specGenerateKey() {
 				}
 			}
 			ps.need("KEYGEN-REDRAW", ok, "a rejected candidate does not lead to a new full 32-byte draw")
+			if kd := lastDraw(o); kd != nil && kd.k == 32 {
+				dd := pVal(kd)
+				ps.need("KEYGEN-REDRAW-ONLY", ps.prove(o, dd, token.LEQ, pC(0)) || ps.prove(o, dd, token.GEQ, pAdd(pSym("N"), pC(-1))), "a candidate is redrawn on a path that establishes neither d = 0 nor d >= n-1: a valid key is skipped")
+			}
 			continue
 		}
 		if len(o.vals) != 4 {
@@ -438,6 +458,7 @@ func (ps *protoSpec) specGenerateKey() {
 	}
 	ps.flush(map[string]string{
 		"KEYGEN-REDRAW":        "every rejected candidate restarts the loop after a full 32-byte draw",
+		"KEYGEN-REDRAW-ONLY":   "a candidate is redrawn only when it is 0 or at least n-1",
 		"KEYGEN-ERROR-RESULTS": "every error outcome returns nil coordinates",
 		"KEYGEN-SOURCE":        "no key is produced from a nil source",
 		"KEYGEN-DRAW":          "the private key is the last full 32-byte draw",
@@ -453,7 +474,7 @@ func (ps *protoSpec) specDerivePublic(priv *pt) {
 		}
 		if isErrVal(o.vals[2]) {
 			ps.need("DERIVE-ERROR-RESULTS", isNilVal(o.vals[0]) && isNilVal(o.vals[1]), "an error outcome returns coordinates")
-			continue
+			continue // the statement allows derivation to answer with an error (it does so for valid keys shorter than 32 bytes)
 		}
 		ps.need("DERIVE-RANGE", ps.validKey(o, pVal(priv)), "a public key is returned although 1 <= d <= n-2 does not follow from the guards of the path")
 		ps.need("DERIVE-PUBLIC", ps.coordsOf(o, o.vals[0], o.vals[1], pVal(priv)), "the returned coordinates are not the 32-byte encodings of the affine coordinates of [d]G")
@@ -783,4 +804,38 @@ func protoDecoders(r *Report, p *Prog) {
 	if ps := newProtoSpecMode(r, p, "sm2/internal/fiat.(*SM2Element).IsZero", false); ps != nil {
 		ps.specZeroPredicate("PREDICATE-DEF", "IsZero compares the canonical encoding with 32 zero bytes", pParam("e0"))
 	}
+}
+
+// sCongruent: inner ≡ (1+d)^-1 (k - r d) modulo n. With I = inv(1+d): E = poly(inner) - I (k - r d) = A*I + B must satisfy
+// A + B*(1+d) = 0 (multiply by 1+d and use I (1+d) = 1).
+func sCongruent(inner, k, R, d *pt) bool {
+	I := pOp("inv", pAdd(d, pC(1)))
+	target := pMul(I, pAdd(k, pNeg(pMul(R, d))))
+	E := polyOf(inner).add(polyOf(target), -1)
+	iAtom := strings.ReplaceAll(I.String(), "*", "x")
+	A, B := spoly{}, spoly{}
+	for m, c := range E {
+		parts := []string{}
+		if m != "" {
+			parts = strings.Split(m, "*")
+		}
+		cnt := 0
+		var rest []string
+		for _, a := range parts {
+			if a == iAtom {
+				cnt++
+			} else {
+				rest = append(rest, a)
+			}
+		}
+		switch cnt {
+		case 0:
+			B[strings.Join(rest, "*")] = c
+		case 1:
+			A[strings.Join(rest, "*")] = c
+		default:
+			return false
+		}
+	}
+	return len(A.add(B.mul(polyOf(pAdd(d, pC(1)))), 1)) == 0
 }
